@@ -805,7 +805,7 @@ def run(tier, replay=None):
                 ("small", Gen(core.rng("C15/small"), cs, True, tier, "s").all())]
     evaluations, nontrivial, hist, samples, validated = 0, set(), {}, [], 0
     LIMIT_TOKENS = ("TOO_MANY_MATCHES", "EXEC_STACK_OVERFLOW", "LOOP_NESTING", "includes_", "TOO_MANY_STRINGS", "identifier_too_long",
-                    "INTEGER_OVERFLOW", "TOO_COMPLEX", "TOO_LARGE", "TOO_MANY_RE_FIBERS", "tmm=", "000000000", "cfg.")
+                    "INTEGER_OVERFLOW", "TOO_COMPLEX", "TOO_LARGE", "TOO_MANY_RE_FIBERS", "SCAN_TIMEOUT", "tmm=", "000000000", "cfg.")
     for variant, cases in sets:
         if not cases:
             continue
